@@ -141,3 +141,37 @@ pub fn c05(tier: &str) -> i32 {
         &|f: &str| f.split_once(" ## ").and_then(|(head, _)| head.split_whitespace().last().map(|s| s.to_string())).filter(|id| id.starts_with("KF-") || id.starts_with("KT-")),
     )
 }
+
+pub fn c16(tier: &str) -> i32 {
+    use crate::engines::stmt;
+    use crate::findings::Findings;
+    let thorough = tier == "thorough";
+    let f = Findings::load();
+    let listed: Vec<String> = f.ids_for("C16").into_iter().collect();
+    let g = |name: &str, chunk: u64, what: &str| FlatGroup { name: name.into(), size: stmt::group_size(name, thorough), chunk, what: what.into() };
+    let groups = vec![
+        g("bytes-le2", 2048, "ALL strings of length <= 2 over the 256 byte values (as characters U+0000..U+00FF)"),
+        g("symbols", 1024, "all strings of length <= 3 (thorough: 4) over 24 symbols: quotes, parentheses, operators, digits, a letter, NUL, U+0080, U+00FF, space"),
+        g("tokens", 1024, "all token sequences of length <= 3 (thorough: 4) over a 58-token vocabulary (statement keywords, one table, two columns, literals, punctuation)"),
+        g("mutations", 256, "every token-prefix, single-token deletion, duplication and substitution by each vocabulary token of 20 valid statements"),
+        g("nesting", 1, "parentheses, NOT, unary minus, +, AND, IN-list, VALUES-list and sub-select nesting to depth 1..20000"),
+        g("typed", 8, "81 well-formed statements with wrong types, unknown names, zero divisors, NULL arguments, arity errors, HAVING/CASE/sub-queries, 1 MiB literals, against 3 schemas (plain, UNIQUE key, NOT NULL columns): result + probe + data unchanged after an error"),
+        g("typed-session", 4, "the same statements at every position (before, between, after) of a three-statement session that must keep working and commit"),
+    ];
+    run_flat(
+        "C16",
+        tier,
+        "exploration",
+        "stmt",
+        stmt::params(thorough, listed),
+        groups,
+        120,
+        &[
+            "a panic inside a pool job is observed through a process-wide panic hook (pool size 2, the instance is rebuilt after a panic); a hang is the worker's watchdog (120 s per chunk, re-run one input at a time to name the input); a dead process (stack overflow, abort) is attributed the same way",
+            "after every statement that got past the parser and failed, `SELECT * FROM t` must succeed and equal the data before; after a panic-free success that may have changed data the instance is rebuilt",
+            "every input string is valid UTF-8 (the API takes &str); bytes are represented by the characters U+0000..U+00FF",
+        ],
+        "exhaustive enumeration of the bounded input sets listed under groups; non-trivial = the input got past the parser (bind/plan/execute reached)",
+        &|f: &str| f.split_once(" ## ").and_then(|(head, _)| head.split_whitespace().last().map(|s| s.to_string())).filter(|id| id.starts_with("KF-") || id.starts_with("KT-")),
+    )
+}
